@@ -31,7 +31,7 @@ GEN = [
 DYN_LEVELS = [['C14_TieGeom', 'C14_TieSplit', 'C14_TieProbes', 'C14_TieLine'], ['C14_TieFinder']]
 
 
-def build(ctx):
+def regenerate(ctx):
     facts, written = {}, []
     for name, fn in GEN:
         try:
@@ -41,16 +41,21 @@ def build(ctx):
             written.append(name)
         except TranslateError as e:
             ctx.broke('translator', name, e)
+    return facts, written
+
+
+def compile_all(ctx, written):
     ok = compile_parallel(ctx, [f'gen/{n}.v' for n in written])
     ctx.copy_dyn()
     for lev in DYN_LEVELS:
         ok.update(compile_parallel(ctx, [f'dyn/{n}.v' for n in lev], kind='tie', timeout=600))
-    return facts, ok
+    return ok
 
 
 def run(ctx):
+    import threading
+    import traceback
     from .. import c14_oracle as O
-    from ..c15_oracle import CorrBatch
     ctx.trusted += [
         'scipy.spatial.cKDTree (outside the model: the theorems hold for every candidate list; the correspondence recomputes '
         'the candidates with the same tree)',
@@ -70,16 +75,30 @@ def run(ctx):
                        'distinct by content')
     ctx.ensure_static()
     t = time.time()
-    facts, ok = build(ctx)
-    ctx.prove()
-    ctx.log(f'build+prove {time.time() - t:.1f}s')
-    batch = CorrBatch(ctx)
-    import traceback
-    for stage in (lambda: O.correspond(ctx, facts, ok, batch), batch.run, lambda: O.search_finders(ctx), lambda: O.search_probes(ctx)):
+    facts, written = regenerate(ctx)
+    ok = {}
+
+    def coq_side():
+        try:
+            ok.update(compile_all(ctx, written))
+            ctx.prove()
+            ctx.log(f'build+prove {time.time() - t:.1f}s')
+        except Exception as e:      # noqa: BLE001
+            ctx.broke('harness', type(e).__name__, traceback.format_exc())
+    th = threading.Thread(target=coq_side)
+    th.start()
+    # meanwhile, on the real implementation (no Coq needed)
+    coll = O.Collector()
+    for stage in (lambda: O.correspond(ctx, facts, coll), lambda: O.search_finders(ctx), lambda: O.search_probes(ctx)):
         try:
             stage()
         except Exception as e:      # noqa: BLE001 - a crash of one stage must not hide what the others find
             ctx.broke('harness', type(e).__name__, traceback.format_exc())
+    th.join()
+    try:
+        O.run_correspondence(ctx, coll, ok)
+    except Exception as e:      # noqa: BLE001
+        ctx.broke('harness', type(e).__name__, traceback.format_exc())
 
 
 def replay(ctx, data):
